@@ -239,6 +239,10 @@ def systematic(seed=0):
             d = "suit-directive-override-parameters" if (i + rep) % 2 else "suit-directive-set-parameters"
             e["SUIT_Envelope_Tagged"]["suit-manifest"]["suit-install"] = [{d: {p: PARAMETER_MAKERS[p](rng)}}]
             out.append((f"parameter-{p}-{rep}", e))
+    # every version comparison name
+    e = envelope(rng, severed=[], n_auth=0, members=[])
+    e["SUIT_Envelope_Tagged"]["suit-manifest"]["suit-validate"] = [{"suit-directive-override-parameters": {"suit-parameter-version": {R.name_of(c): [1, i]}}} for i, c in enumerate(R.SPACES["version_comparison"])]
+    out.append(("all-version-comparisons", e))
     # all parameters together
     e = envelope(rng, severed=[], n_auth=1, members=[])
     e["SUIT_Envelope_Tagged"]["suit-manifest"]["suit-load"] = [{"suit-directive-override-parameters": parameters(rng, sorted(PARAMETER_MAKERS))}]
